@@ -28,11 +28,13 @@ Suppressions:
 """
 
 import ast
+import re
 from pathlib import Path
 
 from src.core.base import BaseLintContext, MultiLanguageLintRule
 from src.core.linter_utils import load_linter_config
 from src.core.types import Violation
+from src.linter_config.rule_matcher import check_bracket_rules
 
 from .config import MethodPropertyConfig
 from .python_analyzer import PropertyCandidate, PythonMethodAnalyzer
@@ -328,8 +330,12 @@ class MethodPropertyRule(MultiLanguageLintRule):  # thailint: ignore[srp,dry]
 
         line_lower = line_text.lower()
 
-        # Check for thailint: ignore[method-property]
+        # Check for thailint: ignore[method-property] (a bracket list naming only other rules
+        # does not apply to this rule; a bare "thailint: ignore" applies to every rule)
         if "thailint:" in line_lower and "ignore" in line_lower:
+            bracket = re.search(r"ignore\[([^\]]+)\]", line_lower)
+            if bracket:
+                return check_bracket_rules(bracket.group(1), violation.rule_id)
             return True
 
         # Check for noqa
